@@ -15,6 +15,7 @@ type propFunc func(r *Run, verifDir string)
 
 var props = map[string]propFunc{
 	"C01": runC01,
+	"C02": runC02,
 	"C05": runC05,
 	"C06": runC06,
 	"C17": runC17,
@@ -63,6 +64,10 @@ func main() {
 		for _, row := range registryRows(reg) {
 			fmt.Printf("%s\t0x%X\t%s\n", row.scope, row.num, row.name)
 		}
+		return
+	}
+	if *gen == "debug-c02" {
+		debugC02(p)
 		return
 	}
 	if *gen == "versions" {
